@@ -676,7 +676,8 @@ func (envs *Manager) TeardownEnvironment(environmentId uid.ID, force bool) error
 	// we gather all DESTROY/after_DESTROY hooks, as these require special treatment
 	hooksMapForDestroy := env.Workflow().GetHooksMapForTrigger("DESTROY")
 	for k, v := range env.Workflow().GetHooksMapForTrigger("after_DESTROY") {
-		hooksMapForDestroy[k] = v
+		// DESTROY and after_DESTROY hooks of equal weight are both kept (DESTROY ones first)
+		hooksMapForDestroy[k] = append(hooksMapForDestroy[k], v...)
 	}
 
 	allWeights := hooksMapForDestroy.GetWeights()
@@ -791,6 +792,7 @@ func (envs *Manager) TeardownEnvironment(environmentId uid.ID, force bool) error
 	})
 
 	// we trigger all cleanup hooks, first calls, then tasks immediately after
+	hookTasksToRelease := make(task.Tasks, 0)
 	for _, weight := range allWeights {
 		hooksForWeight, ok := hooksMapForDestroy[weight]
 		if ok {
@@ -798,6 +800,8 @@ func (envs *Manager) TeardownEnvironment(environmentId uid.ID, force bool) error
 
 			// calls done, we start the task hooks...
 			cleanupTaskHooks := hooksForWeight.FilterTasks()
+			// (every hook task of every weight is released afterwards, triggered or not)
+			hookTasksToRelease = append(hookTasksToRelease, cleanupTaskHooks...)
 
 			// ...but only if their parent role is still ACTIVE (i.e. not killed or executor failed)
 			cleanupTaskHooks = cleanupTaskHooks.Filtered(func(t *task.Task) bool {
@@ -813,10 +817,10 @@ func (envs *Manager) TeardownEnvironment(environmentId uid.ID, force bool) error
 					Warn("environment post-destroy hooks failed")
 			}
 
-			// and then we kill them too
-			taskmanMessage = task.NewEnvironmentMessage(taskop.ReleaseTasks, environmentId, cleanupTaskHooks, nil)
 		}
 	}
+	// and then we release them too
+	taskmanMessage = task.NewEnvironmentMessage(taskop.ReleaseTasks, environmentId, hookTasksToRelease, nil)
 
 	envs.cancelCallsPendingAwait(env)
 
